@@ -25,9 +25,12 @@ import (
 	"github.com/ava-labs/hypersdk/pubsub"
 )
 
-const maxSize = 12
+// maxSize is set per scenario: 12 (one-byte length prefixes) or 270 (messages of 128+ bytes carry a
+// two-byte length prefix)
+var maxSize = 12
 
 type scenario struct {
+	max        int
 	sizes      []int
 	queueCap   int
 	closer     bool // Close from a second thread, concurrently with the sends
@@ -35,7 +38,7 @@ type scenario struct {
 }
 
 func (s scenario) String() string {
-	return fmt.Sprintf("sizes=%v queueCap=%d concurrentClose=%v concurrentConsumer=%v maxSize=%d", s.sizes, s.queueCap, s.closer, s.consumer, maxSize)
+	return fmt.Sprintf("sizes=%v queueCap=%d concurrentClose=%v concurrentConsumer=%v maxSize=%d", s.sizes, s.queueCap, s.closer, s.consumer, s.max)
 }
 
 type obs struct {
@@ -55,6 +58,7 @@ func body(sc scenario, o **obs) func() {
 	return func() {
 		ob := &obs{}
 		*o = ob
+		maxSize = sc.max
 		mb := pubsub.NewMessageBuffer(logging.NoLog{}, sc.queueCap, maxSize, time.Second)
 		done := vsched.Make[struct{}](1)
 		if sc.consumer {
@@ -110,6 +114,7 @@ func body(sc scenario, o **obs) func() {
 }
 
 func check(sc scenario, ob *obs, out *vsched.Outcome) (string, string) {
+	maxSize = sc.max
 	if out.Deadlock {
 		return "deadlock", fmt.Sprintf("%v", out.Blocked)
 	}
@@ -184,14 +189,28 @@ func scenarios(thorough bool) []scenario {
 	rec(nil)
 	var out []scenario
 	for _, s := range seqs {
-		out = append(out, scenario{sizes: s, queueCap: 8})
-		out = append(out, scenario{sizes: s, queueCap: 8, closer: true})
+		out = append(out, scenario{max: 12, sizes: s, queueCap: 8})
+		out = append(out, scenario{max: 12, sizes: s, queueCap: 8, closer: true})
 		if len(s) <= 3 {
-			out = append(out, scenario{sizes: s, queueCap: 1, consumer: true})
-			out = append(out, scenario{sizes: s, queueCap: 1})
+			out = append(out, scenario{max: 12, sizes: s, queueCap: 1, consumer: true})
+			out = append(out, scenario{max: 12, sizes: s, queueCap: 1})
 		}
 		if len(s) <= 2 || thorough {
-			out = append(out, scenario{sizes: s, queueCap: 1, consumer: true, closer: true})
+			out = append(out, scenario{max: 12, sizes: s, queueCap: 1, consumer: true, closer: true})
+		}
+	}
+	// messages of 128 bytes and more have a two-byte length prefix: limit 270
+	big := []int{1, 127, 128, 133, 134, 266, 267, 268}
+	for _, a := range big {
+		out = append(out, scenario{max: 270, sizes: []int{a}, queueCap: 8})
+		for _, b := range big {
+			out = append(out, scenario{max: 270, sizes: []int{a, b}, queueCap: 8})
+			if thorough {
+				out = append(out, scenario{max: 270, sizes: []int{a, b}, queueCap: 8, closer: true})
+				for _, c := range []int{1, 128, 133} {
+					out = append(out, scenario{max: 270, sizes: []int{a, b, c}, queueCap: 8})
+				}
+			}
 		}
 	}
 	return out
@@ -269,7 +288,7 @@ func main() {
 	r.Cov["scenarios"] = len(scs)
 	r.Cov["distinct_outcomes"] = tot["distinct_outcomes"]
 	r.Cov["preemption_bound"] = "unbounded"
-	r.Cov["rule"] = fmt.Sprintf("message size sequences of length <=3 (thorough 4) over {0,1,max/2,max-3,max-2,max-1,max,max+1} with max=%d x {queue 8 with Close after the sends, queue 8 with concurrent Close, queue 1 with concurrent consumer, queue 1 without consumer (drops allowed), queue 1 with consumer and concurrent Close}; the timer fires at every possible point (its dispatch thread is scheduled like any other); all interleavings", maxSize)
-	r.Assumptions = []string{"maximum size 12 bytes (size accounting is linear, so the boundary behaviour does not depend on the magnitude below 128-byte messages)", "the timer's timeout value is irrelevant: firing is a scheduling decision"}
+	r.Cov["rule"] = fmt.Sprintf("message size sequences of length <=3 (thorough 4) over {0,1,max/2,max-3,max-2,max-1,max,max+1} with max=%d (and sequences of <=2 (3) messages over {1,127,128,133,134,266,267,268} with max=270, where the length prefix takes two bytes) x {queue 8 with Close after the sends, queue 8 with concurrent Close, queue 1 with concurrent consumer, queue 1 without consumer (drops allowed), queue 1 with consumer and concurrent Close}; the timer fires at every possible point (its dispatch thread is scheduled like any other); all interleavings", maxSize)
+	r.Assumptions = []string{"maximum sizes 12 and 270 bytes (one- and two-byte length prefixes; three-byte prefixes start at 16 KiB messages)", "the timer's timeout value is irrelevant: firing is a scheduling decision"}
 	r.Finish()
 }
